@@ -19,6 +19,7 @@ fn c11_flush_one_address() {
     flush(unsafe { VirtAddr::new_unsafe(a) });
     vp!(C11, m().nlog == 1 && m().log[0].kind == isa::EV_INVLPG && m().log[0].a == a, "flush(addr) is not exactly one invlpg of that address");
     vp!(C11, m().arch_eq(&before) && m().clean(), "flush(addr) changed machine state");
+    vp!(C11, !m().opt_fault, "a TLB-invalidating asm block is marked nomem / readonly / pure: the compiler may move page-table stores across the flush");
     kani::cover!(a >= UPPER_BASE);
 }
 
@@ -75,6 +76,7 @@ fn c11_flush_all_reloads_cr3() {
     vp!(C11, e.kind == isa::EV_MOV_TO_CR && e.a == 3, "flush_all does not end with a write of CR3");
     vp!(C11, e.b == before.cr[3], "flush_all reloads CR3 with a different value than it holds (PCID / low bits dropped)");
     vp!(C11, m().arch_eq(&before) && m().clean(), "flush_all changed machine state");
+    vp!(C11, !m().opt_fault, "a TLB-invalidating asm block is marked nomem / readonly / pure: the compiler may move page-table stores across the flush");
 }
 
 #[kani::proof]
@@ -103,6 +105,7 @@ fn c11_flush_pcid_descriptor() {
         _ => vp!(C11, e.b == 0 && e.c == 0, "invpcid descriptor is not zero for the all-context kinds"),
     }
     vp!(C11, m().arch_eq(&before) && m().clean(), "flush_pcid changed machine state");
+    vp!(C11, !m().opt_fault, "a TLB-invalidating asm block is marked nomem / readonly / pure: the compiler may move page-table stores across the flush");
     kani::cover!(k == 0 && p == 4095 && a >= UPPER_BASE);
 }
 
@@ -203,6 +206,7 @@ macro_rules! broadcast_harness {
             vp!(C11, unsafe { CUR == END }, "the requests do not cover every page of the range exactly");
             vp!(C11, (m().n_invlpgb == 0) == (e <= s), "an empty range issued a request / a non-empty one issued none");
             vp!(C11, m().arch_eq(&before) && m().clean(), "broadcast flush changed machine state");
+            vp!(C11, !m().opt_fault, "a TLB-invalidating asm block is marked nomem / readonly / pure: the compiler may move page-table stores across the flush");
             kani::cover!(m().n_invlpgb == $LIMIT);
             kani::cover!(m().n_invlpgb == 2 && s < HALF && e >= UPPER_BASE);
             kani::cover!(m().n_invlpgb == 1 && inv.invlpgb_count_max == 0);
@@ -233,6 +237,7 @@ fn c11_broadcast_without_range() {
     vp!(C11, m().last().kind == isa::EV_TLBSYNC, "tlbsync() is not tlbsync");
     vp!(C11, inv.invlpgb_count_max() == inv.invlpgb_count_max && inv.nasid() == inv.nasid && inv.tlb_flush_nested() == inv.tlb_flush_nested, "Invlpgb getters");
     vp!(C11, m().arch_eq(&before) && m().clean(), "broadcast flush changed machine state");
+    vp!(C11, !m().opt_fault, "a TLB-invalidating asm block is marked nomem / readonly / pure: the compiler may move page-table stores across the flush");
 }
 
 #[kani::proof]
